@@ -569,6 +569,27 @@ def _(c):
         c.ensure("infos.apocenter", abs(inf.ra / (a_ * (1 + e_)) - 1) < 1e-8)
     else:
         c.ensure("infos.vinf", abs(inf.vinf / math.sqrt(mu / abs(a_)) - 1) < 1e-8)
+    # the derived quantities are those of the state as it is NOW: read them, change the object in place (an element by name, the velocity, all six
+    # numbers, the form), read them again -- each time against the definitions evaluated on the object's current cartesian view
+    def derived_ok(sv_):
+        cart = np.asarray(sv_.copy(form="cartesian"), dtype=float)
+        rn_, vn_ = np.linalg.norm(cart[:3]), np.linalg.norm(cart[3:])
+        i_ = sv_.infos
+        return bool(abs(i_.r / rn_ - 1) < 1e-8 and abs(i_.v / vn_ - 1) < 1e-8 and abs(i_.energy / (vn_ ** 2 / 2 - mu / rn_) - 1) < 1e-7
+                    and abs(math.sin(i_.fpa) - (cart[:3] @ cart[3:]) / (rn_ * vn_)) < 1e-7)
+    obj = StateVector(x0, Date(58000), "cartesian", frame)
+    obj.form = "keplerian"
+    ok_follow = derived_ok(obj)
+    nu_signed = (float(obj.nu) + math.pi) % (2 * math.pi) - math.pi      # (a hyperbolic anomaly must stay inside the asymptotes)
+    obj.nu = nu_signed * 0.5 + (0.1 if e < 1 else 0.0)                # one element, by name
+    ok_follow = ok_follow and derived_ok(obj)
+    obj.form = "cartesian"
+    ok_follow = ok_follow and derived_ok(obj)
+    obj[3:] = np.asarray(obj[3:], dtype=float) * 1.01                 # an impulse along the velocity
+    ok_follow = ok_follow and derived_ok(obj)
+    obj[:] = x0 * np.array([1.0, 1.0, 1.0, 0.99, 0.99, 0.99])       # all six numbers
+    ok_follow = ok_follow and derived_ok(obj)
+    c.ensure("infos.follow_in_place_changes", ok_follow)
 
 
 def _grid_m2e(tier, rng):
